@@ -111,13 +111,13 @@ func r181(c *Ctx, r *R) {
 				return true
 			}
 			ext := extLocked(a.fn, 0)
-			r.Check(ext, okey, a.instr.Pos(), a.fn.Name()+" touches the ring outside wMu but every caller holds Store.mux", fmt.Sprintf("%s %s %s without wMu and not every caller holds Store.mux", a.fn.Name(), what, key))
+			r.Check(ext, okey, a.Pos(), a.fn.Name()+" touches the ring outside wMu but every caller holds Store.mux", fmt.Sprintf("%s %s %s without wMu and not every caller holds Store.mux", a.fn.Name(), what, key))
 		case mode == 0:
-			r.Bad(okey, a.instr.Pos(), "%s %s %s without holding %s (held: %s): a concurrent writer makes this a data race / torn result", a.fn.String(), what, key, mu, heldNames(a.held))
+			r.Bad(okey, a.Pos(), "%s %s %s without holding %s (held: %s): a concurrent writer makes this a data race / torn result", a.fn.String(), what, key, mu, heldNames(a.held))
 		case a.write && mode < 2:
-			r.Bad(okey, a.instr.Pos(), "%s writes %s holding only the read lock of %s: concurrent readers race with the write", a.fn.String(), key, mu)
+			r.Bad(okey, a.Pos(), "%s writes %s holding only the read lock of %s: concurrent readers race with the write", a.fn.String(), key, mu)
 		default:
-			r.OK(okey, a.instr.Pos(), "%s %s under %s", what, key, mu)
+			r.OK(okey, a.Pos(), "%s %s under %s", what, key, mu)
 		}
 	}
 	var missing []string
